@@ -94,7 +94,7 @@ pub fn run_one(w: &Value) -> Result<Value, String> {
                        "attr_order": nz["order"], "tokens": [{"k": "row", "r": 0}, if i % 2 == 0 { json!({"k": "c", "r": [0, 0], "s": 1, "v": "44000"}) } else { json!({"k": "c", "r": [0, 0], "s": 1, "f": "A2+1", "v": "44000"}) }, {"k": "rowend"}]})
             }).collect();
             let dn: Vec<Value> = w["names"].as_array().unwrap().iter().map(|d| { let (n, v) = defname_of(d.as_str().unwrap(), fmt); json!([n, v]) }).collect();
-            build_xlsx(&json!({"prefix": nz["prefix"], "rel_prefix": nz["relp"], "date1904": d1904, "styles": {"cellStyleXfs": [0], "cellXfs": [0, 14]}, "sheets": sh, "defined_names": dn}))
+            build_xlsx(&json!({"prefix": nz["prefix"], "rel_prefix": nz["relp"], "date1904": d1904, "ext_workbookpr": nz["order"] == "rev", "styles": {"cellStyleXfs": [0], "cellXfs": [0, 14]}, "sheets": sh, "defined_names": dn}))
         }
         "xlsb" => {
             let mut book = xlsb::XlsbBook::default();
